@@ -20,6 +20,8 @@ type C12Case struct {
 	Src   gen.B `json:"src"`
 	K     int   `json:"k"`
 	Spare int   `json:"spare,omitempty"` // capacity of dst, see sentinelDst
+	// FirstCall: the named function is run as the first call into the package in a fresh process
+	FirstCall string `json:"first_call,omitempty"`
 }
 
 const rcLetters = "aAcCgGtTnN"
@@ -51,6 +53,11 @@ func genC12(t *rapid.T, thorough bool) C12Case {
 }
 
 func checkC12(c C12Case, o *Obs) (err error) {
+	if c.FirstCall != "" {
+		o.NT = true
+		o.Class("first call in a fresh process")
+		return runFirstCall(c.FirstCall)
+	}
 	// either an exact-capacity slice (nil when empty) or a window with valid bases behind it
 	src := window(c.Src, (len(c.Src)+len(c.Dst)+c.K+c.Spare)%2 == 0)
 	defer func() {
@@ -419,6 +426,18 @@ func checkC12(c C12Case, o *Obs) (err error) {
 }
 
 func exhaustiveC12(thorough bool, emit func(C12Case) bool) {
+	if !emit(C12Case{FirstCall: "ReverseComplement"}) {
+		return
+	}
+	if !emit(C12Case{FirstCall: "ReverseComplementString"}) {
+		return
+	}
+	if !emit(C12Case{FirstCall: "CanonicalSubsequences"}) {
+		return
+	}
+	if !emit(C12Case{FirstCall: "ReverseComplement-panics"}) {
+		return
+	}
 	// Real-data-shaped sequences (homopolymers, microsatellites, N gaps that change case inside
 	// the gap, soft-masked stretches) of every length up to 300 and on the size ladder.
 	for n := 1; n <= 300; n++ {
@@ -542,6 +561,7 @@ func exhaustiveC12(thorough bool, emit func(C12Case) bool) {
 func keyC12(c C12Case) []byte {
 	k := make([]byte, 0, len(c.Src)+len(c.Dst)+4)
 	k = append(k, byte(c.K), byte(c.K>>8), byte(len(c.Dst)), byte(c.Spare))
+	k = append(k, c.FirstCall...)
 	k = append(k, c.Dst...)
 	k = append(k, 0)
 	return append(k, c.Src...)
